@@ -463,7 +463,9 @@ func generate(c *Ctx) []Replay {
 	var jobs []Replay
 	add := func(kind string, in ...[]byte) { jobs = append(jobs, job(kind, in...)) }
 
-	// -- deterministic corpus: the witnesses of the refuted theorems and of the recorded findings, always first
+	// -- the boundary corpus (boundary.go): one input per comparison / constant of the mechanism files, always first
+	boundaryCorpus(c, c.Tier == "thorough", add)
+	// -- deterministic corpus: the witnesses of the refuted theorems and of the recorded findings
 	huge := []byte{0xff, 0xff, 0xff, 0xff, 0xff, 0xff, 0xff, 0xff, 0xff, 0x01}
 	// the length varint 2^64-1 (-1 as an int): the dependency's function panics (kind bytes: environment, compared by K), the /repo
 	// decoders, which read it through the guarded utils.UnmarshalBytes/UnmarshalString, return an error
@@ -528,7 +530,7 @@ func generate(c *Ctx) []Replay {
 		}
 		return evs
 	}
-	for i := 0; i < c.N(2); i++ { // small packets: every truncation and every mutation
+	for i := 0; i < c.N(1); i++ { // small packets: every truncation and every mutation
 		e := encWp(r.PickStr("a=b", "", "{a=b,c=d}"), r.PickStr("", "f=v", "f=\"x,y\""), []apiEv{{ts: int64(i) - 1, msg: r.PickStr("m", "msg1"), fields: r.PickStr("", "g=h")}, {ts: 7, msg: "", tags: "t"}}[:r.Range(1, 2)])
 		for _, m := range mutations(r, e, true, 0) {
 			add("wp", m)
@@ -629,7 +631,7 @@ func generate(c *Ctx) []Replay {
 		add("leu", nil, rb)
 	}
 	// -- kv texts -> fields
-	for i := 0; i < c.N(80); i++ {
+	for i := 0; i < c.N(45); i++ {
 		s := genKv(r)
 		add("fromkv", []byte(s))
 		if r.Chance(1, 2) {
@@ -652,7 +654,7 @@ func generate(c *Ctx) []Replay {
 		s += string(r.Bytes(r.Range(0, 4), []byte("ab =,\\\"`\x80"))) + r.PickStr("\\", "\\", "\\\\", "\\\"", "")
 		kvEntryPoints(add, s)
 	}
-	for i := 0; i < c.N(40); i++ {
+	for i := 0; i < c.N(20); i++ {
 		s := genKv(r)
 		if r.Chance(1, 2) {
 			s = mutateText(r, s, kvAlphabet)
@@ -661,14 +663,14 @@ func generate(c *Ctx) []Replay {
 		add("rcb", []byte(s))
 		add("trim", []byte(r.PickStr("", " ", "  ")+s+r.PickStr("", " ", "   ")))
 	}
-	for i := 0; i < c.N(30); i++ {
+	for i := 0; i < c.N(15); i++ {
 		b := r.Bytes(r.Range(0, 10), kvAlphabet)
 		add("split", b)
 		add("rcb", b)
 		add("trim", b)
 	}
 	// -- binary field lists: Check, Value, AsKVString
-	for i := 0; i < c.N(50); i++ {
+	for i := 0; i < c.N(30); i++ {
 		f := genFieldsBin(r)
 		if r.Chance(1, 2) {
 			f = mutateFieldsBin(r, f)
@@ -701,10 +703,9 @@ func generate(c *Ctx) []Replay {
 			flds = mutateFieldsBin(r, flds)
 		}
 		msg := []byte(r.PickStr("", "msg", "q\"uote\n", "caf\xc3\xa9\x80", "r\xef\xbf\xbdx\x80"))
-		tl := []byte(r.PickStr("", "", "a=b,c=d"))
-		if fmtEvalOk([]byte(f), msg, tl) {
-			add("fmteval", []byte(f), msg, flds, tl)
-		} else if fmtEvalOk([]byte(f), msg, nil) {
+		tl := []byte(r.PickStr("", "", "a=b,c=d", "name=app1,a=\"x y\"", "{a=b}", "a=\"b\\", "a", "=", "\x80=\x80"))
+		add("fmteval", []byte(f), msg, flds, tl) // compared with the model when it has no timestamp element / tag look-up, else oracle only
+		if !fmtEvalOk([]byte(f), msg, tl) && fmtEvalOk([]byte(f), msg, nil) {
 			add("fmteval", []byte(f), msg, flds, nil)
 		}
 	}
@@ -792,6 +793,7 @@ func generate(c *Ctx) []Replay {
 	}
 	genAdmin(r, add, c.N(40))
 	genRpc(c, r, add)
+	bigLengthCases(c.Tier == "thorough", add)
 	return jobs
 }
 
